@@ -70,6 +70,20 @@ def tree_value_ids(config):
     return ids
 
 
+class FalsyRecorder:
+    """A recording callable that is false in a boolean context (like a
+    collector object whose __len__ is still 0)."""
+
+    def __init__(self, calls, key):
+        self.calls, self.key = calls, key
+
+    def __call__(self, v):
+        self.calls.append((self.key, v))
+
+    def __len__(self):
+        return 0
+
+
 def variant_name(rng, n):
     r = rng.random()
     return n.upper() if r < 0.3 else n.capitalize() if r < 0.5 else n
@@ -113,8 +127,12 @@ def judge(ctx, p, rng):
                 mapping[supplied] = None
             else:
                 key = family.basic_key(supplied)
-                mapping[supplied] = (lambda v, key=key:
-                                     calls.append((key, v)))
+                if len(mapping) % 2:
+                    # a callable need not be "true": only None means skip
+                    mapping[supplied] = FalsyRecorder(calls, key)
+                else:
+                    mapping[supplied] = (lambda v, key=key:
+                                         calls.append((key, v)))
         try:
             handler(mapping)
         except ZConfig.ConfigurationError as e:
